@@ -621,4 +621,44 @@ def restoreHeader (buf : Bytes) (pnOff : Nat) (firstByte : Nat) (rawPn : Bytes) 
   let b1 := buf.set 0 firstByte
   b1.take pnOff ++ (rawPn ++ (b1.drop pnOff).drop rawPn.length)
 
+/-! ## One UDP flow through `handlePkt` (`control/udp.go`, sniffing section)
+
+Single flow (fixed source, destination, QUIC port), packets handled one after the other as the
+ordered ingress does.  `established` = a `UdpEndpoint` exists for the flow: from then on every
+datagram is written to it at once (fast path with a sniffed domain, or the plain reuse path) and
+sniffing is over.  Before that, a datagram that is not shaped like a QUIC Initial is forwarded
+immediately (which creates the endpoint); a QUIC Initial goes through the packet sniffer and is
+withheld while the sniffer asks for more; the first other answer releases the buffered datagrams
+in ingress order followed by the current one (`toReplay`), and `CompactPacketState` empties the
+sniffer. -/
+structure Flow where
+  pkt : Pkt := {}
+  established : Bool := false
+  domain : Bytes := []
+deriving Repr, Inhabited
+
+def Flow.step (oracle : List Sealed) (f : Flow) (d : Bytes) : Flow × List Bytes :=
+  if f.established then (f, [d])
+  else if !isLikelyQuic d then ({ f with established := true }, [d])
+  else
+    let r := (f.pkt.append d).sniffUdp oracle
+    if r.2.needMore then ({ f with pkt := r.2 }, [])
+    else
+      ({ pkt := r.2.compact, established := true,
+         domain := match r.1 with
+           | .ok n => n
+           | .error _ => [] },
+       r.2.data.drop 1)
+
+/-- Datagrams the flow's sniffer session is holding back. -/
+def Flow.withheld (f : Flow) : List Bytes := f.pkt.data.drop 1
+
+/-- Handle a sequence of datagrams: what is forwarded at each step, and the final state. -/
+def Flow.run (oracle : List Sealed) : Flow → List Bytes → List (List Bytes) × Flow
+  | f, [] => ([], f)
+  | f, d :: ds =>
+    let (f1, out) := f.step oracle d
+    let (outs, f2) := Flow.run oracle f1 ds
+    (out :: outs, f2)
+
 end DaeVerif.C06
